@@ -173,7 +173,8 @@ def match(ctx, rule, construct, found, specs, names=None, body=None, mod=None, n
             allowed |= _PARTNER.get(t, set())
         extra = fv - allowed
         # numeric constants that differ are a semantic change, not new vocabulary
-        extra = {t for t in extra if not _is_number(t) and t not in ("Not", "USub")}      # an inserted negation is a change of meaning, not a new idiom
+        extra = {t for t in extra if not _is_number(t) and t not in ("Not", "USub", "Is", "IsNot", "Eq", "NotEq", "Lt", "LtE", "Gt", "GtE", "In", "NotIn", "Add", "Sub", "Mult", "Div", "FloorDiv", "Mod", "Pow")}
+        # an inserted negation, comparison or arithmetic step is a change of meaning, not a new idiom
         if not extra:
             ctx.ob(rule, construct, False, found=ast.unparse(e), required=req, mod=mod, node=node or found, sig=sig or "shape")
             return False
